@@ -564,6 +564,32 @@ fn long_domains(rng: &mut Rng) -> Vec<Vec<u8>> {
         v.push(format!("xn--{}\u{E9}", a(n)));
         v.push(format!("XN--{}", a(n)));
     }
+    // VALID Punycode labels whose ASCII form is exactly 1996..2008 bytes long (decode cap 2000 applies to
+    // len - 4 on both the all-ASCII fast path and the slow path): distinct CJK ideographs plus 'a' filler;
+    // lower-case, upper-case prefix, mapped (fullwidth) first letter so that the slow path is taken, and
+    // a second label in front
+    {
+        let mk = |m: u32| -> String { (0..m).map(|i| char::from_u32(0x4E00 + i).unwrap()).collect() };
+        let mut by_len: std::collections::BTreeMap<usize, String> = std::collections::BTreeMap::new();
+        for m in [900u32, 925, 940] {
+            let cjk = mk(m);
+            for fill in 0..(1000 - m as usize) {
+                let lab = puny(&format!("{}{}", a(fill), cjk));
+                if lab.len() > 2010 {
+                    break;
+                }
+                if lab.len() >= 1996 {
+                    by_len.entry(lab.len()).or_insert(lab);
+                }
+            }
+        }
+        for (_, lab) in by_len {
+            v.push(lab.clone());
+            v.push(format!("XN--{}", &lab[4..]));
+            v.push(format!("b.{}", lab));
+            v.push(format!("\u{FF58}n--{}", &lab[4..]));
+        }
+    }
     let big: String = (0..990).map(|_| *rng.pick(&["\u{E9}", "\u{4E2D}", "a"])).collect();
     v.push(puny(&big));
     v.push(big);
